@@ -6,7 +6,7 @@ From Coq Require Import List Arith Sorted.
 Import ListNotations.
 Require MayV.Sync.ChanMpscModel MayV.Sync.ChanMpscInv MayV.Sync.ChanMpscThm MayV.Sync.ChanMpscAccept.
 Require MayV.Sync.ChanSpscModel MayV.Sync.ChanSpscInv MayV.Sync.ChanSpscThm MayV.Sync.ChanSpscAccept.
-Require MayV.Sync.ChanMpmcModel MayV.Sync.ChanMpmcInv MayV.Sync.ChanMpmcThm.
+Require MayV.Sync.ChanMpmcModel MayV.Sync.ChanMpmcInv MayV.Sync.ChanMpmcThm MayV.Sync.ChanMpmcAccept.
 
 (* ======================================== mpsc ======================================== *)
 Module Mpsc.
@@ -105,37 +105,41 @@ End Spsc.
 
 (* ======================================== mpmc ======================================== *)
 Module Mpmc.
-Import MayV.Sync.ChanMpmcModel MayV.Sync.ChanMpmcInv MayV.Sync.ChanMpmcThm.
+Import MayV.Sync.ChanMpmcModel MayV.Sync.ChanMpmcInv MayV.Sync.ChanMpmcThm MayV.Sync.ChanMpmcAccept.
 
-Theorem C06_mpmc_accounting : forall s, Reach true true s -> sent s = map snd (rlog s) ++ drpd s ++ q s.
-Proof. exact mpmc_accounting. Qed.
+Theorem C06_mpmc_accounting : forall s, Reach true true true s -> sent s = map snd (rlog s) ++ drpd s ++ q s.
+Proof. exact (mpmc_accounting true). Qed.
 Print Assumptions C06_mpmc_accounting.
 
 (* rlog has one entry (receiver, value) per value handed out: received by exactly one receiver call *)
-Theorem C06_mpmc_exactly_once : forall s, Reach true true s ->
+Theorem C06_mpmc_exactly_once : forall s, Reach true true true s ->
   NoDup (map snd (rlog s) ++ drpd s ++ q s) /\
   (forall v, In v (sent s) <-> In v (map snd (rlog s)) \/ In v (drpd s) \/ In v (q s)).
-Proof. exact mpmc_exactly_once. Qed.
+Proof. exact (mpmc_exactly_once true). Qed.
 Print Assumptions C06_mpmc_exactly_once.
 
 (* per receiver r and sender a: the sequence numbers r got from a strictly increase *)
-Theorem C06_mpmc_per_receiver_order : forall s r a, Reach true true s -> StronglySorted lt (got s r a).
-Proof. exact mpmc_per_receiver_order. Qed.
+Theorem C06_mpmc_per_receiver_order : forall s r a, Reach true true true s -> StronglySorted lt (got s r a).
+Proof. exact (mpmc_per_receiver_order true). Qed.
 Print Assumptions C06_mpmc_per_receiver_order.
 
 (* (ii) while a sender (and a receiver) exists: permits = queued values; a permit holder finds a value;
    the `unreachable!("... found no data")` arms are unreachable *)
-Theorem C06_mpmc_permits_are_values : forall s, Reach true true s -> txp s <> 0 -> rxp s <> 0 ->
+Theorem C06_mpmc_permits_are_values : forall s, Reach true true true s -> txp s <> 0 -> rxp s <> 0 ->
   length (q s) = sv s + length (hold s) + length (pend s).
-Proof. exact mpmc_permits_are_values. Qed.
+Proof. exact (mpmc_permits_are_values true). Qed.
 Print Assumptions C06_mpmc_permits_are_values.
 
-Theorem C06_mpmc_unreachable_is_unreachable : forall s r, Reach true true s ->
+Theorem C06_mpmc_unreachable_is_unreachable : forall s r, Reach true true true s ->
   rp (Rv s r) <> RPanic /\ (rp (Rv s r) = Y3n -> txp s = 0).
-Proof. exact mpmc_unreachable_is_unreachable. Qed.
+Proof. exact (mpmc_unreachable_is_unreachable true). Qed.
 Print Assumptions C06_mpmc_unreachable_is_unreachable.
 
-Theorem C06_mpmc_holder_finds_value : forall s r, Reach true true s -> rp (Rv s r) = Y2 -> txp s <> 0 -> q s <> [].
-Proof. exact mpmc_holder_finds_value. Qed.
+Theorem C06_mpmc_holder_finds_value : forall s r, Reach true true true s -> rp (Rv s r) = Y2 -> txp s <> 0 -> q s <> [].
+Proof. exact (mpmc_holder_finds_value true). Qed.
 Print Assumptions C06_mpmc_holder_finds_value.
+(* tie (runs without timed waits, Semphore calls atomic) *)
+Theorem C06_mpmc_accepted_traces_are_model_runs : forall tr sx, accept_all a_init tr = Some sx -> Reach true true true (fst sx).
+Proof. exact accepted_trace_reaches. Qed.
+Print Assumptions C06_mpmc_accepted_traces_are_model_runs.
 End Mpmc.
